@@ -13,6 +13,7 @@ and the infoset of the returned object against the response that was fed in.
 
 from __future__ import annotations
 
+import copy
 import json
 import random
 
@@ -39,7 +40,7 @@ ASSUMPTIONS = [
 MIN_DISTINCT = {"quick": 300, "thorough": 8000}
 TIME = {"quick": 45, "thorough": 1200}
 SHARDS = {"quick": 14, "thorough": 14}
-REQUIRED_FEATURES = ["style:document", "style:rpc", "response:normal", "response:fault", "header", "part-by-type", "part-by-complex-type"]
+REQUIRED_FEATURES = ["style:document", "style:rpc", "response:normal", "response:lenient-client", "response:fault", "header", "part-by-type", "part-by-complex-type"]
 
 ENV = wsdlgen.ENV
 VALUES = {"string": ("text é", "text é"), "int": (42, "42"), "boolean": (True, "true"), "decimal": ("1.5", "1.5"), "date": ("2020-01-02", "2020-01-02"), "double": (2.5, "2.5")}
@@ -108,7 +109,14 @@ for op in ARGS["ops"]:
     for kind, response in op["responses"]:
         run = {"kind": kind}
         try:
-            client = Client.from_service(svc)
+            if kind == "lenient-client":
+                from xsdata.formats.dataclass.client import Config
+                from xsdata.formats.dataclass.parsers import XmlParser
+                from xsdata.formats.dataclass.parsers.config import ParserConfig
+                shared = XmlContext()
+                client = Client(Config.from_service(svc), parser=XmlParser(config=ParserConfig(fail_on_unknown_properties=False), context=shared), serializer=XmlSerializer(context=shared))
+            else:
+                client = Client.from_service(svc)
             session = Recorder(500 if kind == "fault" else 200, response.encode("utf-8"))
             client.transport = DefaultTransport(session=session)
             result = client.send(op["payload"], headers={"X-Verif": "1"})
@@ -202,6 +210,10 @@ def build_messages(w: wsdlgen.Wsdl, op: wsdlgen.Op, rng):
             for p in op.output:
                 etree.SubElement(wrap, p.name).text = VALUES2[p.type][1]
         responses.append(("normal", etree.tostring(r, encoding="unicode")))
+        # the same answer with an element the model does not declare, for a client that was given its own lenient parser
+        r2 = copy.deepcopy(r)
+        etree.SubElement(r2[-1], "{urn:vf:undeclared}extra").text = "x"
+        responses.append(("lenient-client", etree.tostring(r2, encoding="unicode")))
         if op.fault:
             f = etree.Element(q(ENV, "Envelope"), nsmap={"soapenv": ENV})
             fb = etree.SubElement(etree.SubElement(f, q(ENV, "Body")), q(ENV, "Fault"))
@@ -300,7 +312,7 @@ def check(ctx, seed):
             ctx.case(files["service.wsdl"], op.name, kind, nontrivial=True)
             ctx.evals()
             ctx.feature(f"response:{kind}")
-            resp_text = dict(responses)[kind]
+            resp_text = dict(responses)["normal" if kind == "lenient-client" else kind]  # (the undeclared element is skipped by the lenient parser)
             if "error" in r and not (kind == "one-way"):
                 ctx.violation(f"send-fails/{op.style}/{kind}/{norm(r['error'])}", f"{r['error']}\n{r.get('traceback', '')[-800:]}\nresponse fed in: {resp_text[:600]}\n{shown}", wk)
                 continue
